@@ -64,6 +64,37 @@ func TestC06(t *testing.T) {
 			}
 		}
 	}
+	// one-element tensors of every rank: the kernels and the dispatch treat them specially
+	for _, op := range arithOps {
+		for _, form := range []string{"TT", "TS", "ST"} {
+			op, form := op, form
+			cell(t, "C06", "EW", "one-element/"+op+"/"+form, nCases(30, 600), func(rt *rapid.T) Case {
+				var ok []DT
+				for _, d := range numDTs {
+					if opSupports("arith", op, d) {
+						ok = append(ok, d)
+					}
+				}
+				d := rapid.SampledFrom(ok).Draw(rt, "dt")
+				via := rapid.SampledFrom([]string{"pkg", "method"}).Draw(rt, "via")
+				if op == "MinBetween" || op == "MaxBetween" {
+					via = "pkg"
+				}
+				shape := cloneInts(rapid.SampledFrom([][]int{{1}, {1, 1}, {1, 1, 1}, {1, 1, 1, 1}, {}}).Draw(rt, "shape"))
+				lo, hi := valueRange(d)
+				c := &EWCase{Prop: "C06", Fam: "arith", Op: op, DT: d.Name, Form: form, Via: via, Mode: "safe"}
+				c.A = genOpnd(rt, shape, "contig", lo, hi, 15, "a")
+				if form == "TT" {
+					b := genOpnd(rt, shape, "contig", lo, hi, 15, "b")
+					c.B = &b
+				} else {
+					c.Scalar = genCodes(rt, 1, lo, hi, 15, "s")[0]
+				}
+				avoidF39(c)
+				return c
+			})
+		}
+	}
 	// refusals: mismatched shapes, mismatched element types, non-numeric element types
 	for _, op := range arithOps {
 		op := op
